@@ -474,7 +474,32 @@ def shared_chain_locus(w, gid, chrom, p, strand):
     return g, p + 3000
 
 
-ZOO_ALL = ("twins", "contested", "intronic", "apa", "alt_terminal", "shifted_site", "shared_chain", "same_coords")
+def ambiguous_only_locus(w, gid, chrom, p, strand, n_reads=6):
+    """Two isoforms that differ only in their 3' terminal exon (equally long); every read is a partial spliced read over the shared
+    exons: no read is unique at the transcript level, every read is unique at the gene level."""
+    shared = [(p, p + 250), (p + 800, p + 1000), (p + 1700, p + 1950)]
+    la, lb = (p + 2600, p + 2900), (p + 3400, p + 3700)
+    if strand == "+":
+        ta, tb = shared + [la], shared + [lb]
+        reads = [[(shared[0][0] + 10 * k, shared[0][1]), shared[1], (shared[2][0], shared[2][1] - 40 - 5 * k)] for k in range(n_reads)]
+    else:
+        m = lambda e: (2 * p + 3700 - e[1], 2 * p + 3700 - e[0])
+        sh = sorted(m(e) for e in shared)
+        ta, tb = sorted([m(la)] + sh), sorted([m(lb)] + sh)
+        reads = [[(sh[0][0] + 40 + 5 * k, sh[0][1]), sh[1], (sh[2][0], sh[2][1] - 10 * k)] for k in range(n_reads)]
+    g = Gene(gid, chrom, strand)
+    g.transcripts.append(Transcript(gid + ".t1", gid, chrom, strand, ta, True, "ambiguous-only"))
+    g.transcripts.append(Transcript(gid + ".t2", gid, chrom, strand, tb, True, "ambiguous-only"))
+    for t in g.transcripts:
+        for intr in t.introns:
+            w.plant_sites(chrom, intr, strand)
+    w.genes.append(g)
+    for ex in reads:
+        w.make_read(chrom, ex, truth={"src": gid + ".t1", "class": "partial-read-shared-by-all-isoforms"})
+    return g, p + 3700
+
+
+ZOO_ALL = ("ambiguous_only", "twins", "contested", "intronic", "apa", "alt_terminal", "shifted_site", "shared_chain", "same_coords")
 
 
 def add_zoo(w, parts=ZOO_ALL):
@@ -515,6 +540,9 @@ def add_zoo(w, parts=ZOO_ALL):
         def room(n):
             return _free_pos(w, chrom) + n < w.chrom_len(chrom)
         tag = "%d" % (ci + 1)
+        if "ambiguous_only" in parts and room(6500):
+            ambiguous_only_locus(w, "ZAMB" + tag, chrom, _free_pos(w, chrom), "+-"[ci % 2])
+            placed.add("ambiguous_only")
         if "twins" in parts and room(9500):
             add_twin_loci(w, per_chrom=1, chroms=[chrom], prefix="ZNG", offsets=((2, 4, 6, 3)[ci % 4],))
             placed.add("twins")
